@@ -43,6 +43,7 @@ type World struct {
 	value   *Value
 	deref   *Deref
 	recording, mayRecord map[*ssa.Function]bool
+	advancing map[*ssa.Function]bool
 }
 
 func corePkg(path string) bool {
